@@ -345,6 +345,10 @@ RULE = ("deterministic workflows (chain with store writes, fan-out/fan-in, retry
         "of re-executed invocations, total executions and round-trip stability are compared with the uninterrupted "
         "runs (all of which are first shown to agree); non-trivial = the snapshot is taken after at least one "
         "other action, i.e. at least one deviation")
+from vmc.tables import _ROUND6 as _R6  # noqa: E402
+
+RULE += _R6["C12"]
+
 
 
 def run(tier: str, seed: int) -> Any:
